@@ -57,3 +57,73 @@ reg("unsafe-debug", F("tlsh-default", "f-unsafe"), flags=[2, 15, 16, 18, 19, 21,
 CFG_QUICK = ["default", "nosimd", "lowmem", "static-sse2"]
 CFG_ALL = ["default", "nosimd", "embedded", "lowmem", "decq", "decmin", "static-sse2", "static-ssse3", "static-sse41",
            "static-avx2", "unsafe-debug", "unsafe-release", "release"]
+
+
+# ---- model flags derived from the CURRENT Cargo.toml feature graph (tie for C07) ----
+def cargo_feature_graph(path="/repo/fast-tlsh/Cargo.toml"):
+    import re
+    txt = open(path).read()
+    m = re.search(r"^\[features\]\s*$(.*?)^\[", txt, flags=re.S | re.M)
+    body = m.group(1) if m else ""
+    graph = {}
+    for fm in re.finditer(r"^([A-Za-z0-9_-]+)\s*=\s*\[(.*?)\]", body, flags=re.S | re.M):
+        deps = re.findall(r'"([^"]+)"', fm.group(2))
+        graph[fm.group(1)] = [d for d in deps if "/" not in d and not d.startswith("dep:")]
+    return graph
+
+
+def feature_closure(graph, roots):
+    seen, todo = set(), list(roots)
+    while todo:
+        f = todo.pop()
+        if f in seen:
+            continue
+        seen.add(f)
+        todo += graph.get(f, [])
+    return seen
+
+
+def derived_flags(name):
+    """what the cfg_if ladders select for this configuration, from the feature closure, the target features and the profile"""
+    c = CONFIGS[name]
+    feats = []
+    args = c["features"]
+    if args:
+        for f in args[1].split(","):
+            feats.append("default" if f == "tlsh-default" else "serde" if f == "serde-suite" else f[2:] if f.startswith("f-") else f)
+    cl = feature_closure(cargo_feature_graph(), feats)
+    fl = []
+    if "strict-parser" in cl:
+        fl.append(1)
+    if "unsafe" in cl:
+        fl.append(2)
+    if c["profile"] == "release":
+        fl.append(3)
+    for feat, flag in (("opt-low-memory-hex-str-decode-min-table", 12), ("opt-low-memory-hex-str-decode-quarter-table", 11),
+                       ("opt-low-memory-hex-str-decode-half-table", 10)):
+        if feat in cl:
+            fl.append(flag)
+            break
+    for feat, flag in (("opt-low-memory-hex-str-encode-min-table", 14), ("opt-low-memory-hex-str-encode-half-table", 13)):
+        if feat in cl:
+            fl.append(flag)
+            break
+    for feat, flag in (("opt-simd-parse-hex", 15), ("opt-simd-convert-hex", 16), ("opt-low-memory-buckets", 17),
+                       ("opt-pearson-table-double", 18), ("opt-dist-length-table", 19)):
+        if feat in cl:
+            fl.append(flag)
+    if "opt-dist-qratios-table-double" in cl:
+        fl.append(21)
+    elif "opt-dist-qratios-table" in cl:
+        fl.append(20)
+    if "simd-per-arch" in cl and "opt-simd-body-comparison" in cl:
+        rf = c["rustflags"]
+        if "detect-features" in cl or "+avx2" in rf:
+            fl.append(34)          # runtime detection on this CPU selects AVX2
+        elif "+sse4.1" in rf:
+            fl.append(33)
+        else:
+            fl.append(32)
+    else:
+        fl.append(31)
+    return sorted(fl)
